@@ -231,3 +231,172 @@ Proof.
   unfold pt_eqb. apply orb_true_iff. left. apply Z.eqb_eq.
   rewrite !(fmul_zv K). f_equal. rewrite EX1, EY1, EX2, EY2. ring.
 Qed.
+
+(* ---------------------------------------------------------------- the base point *)
+Lemma valid_base K : valid (pt_base K).
+Proof.
+  unfold valid, aff, pt_base. cbn [px py pz pt]. rewrite F_1, F_fmul.
+  assert (N : f1 <> f0) by exact (F_1_neq_0 Fth).
+  split; [exact N|]. split; [|ring].
+  assert (Ex : fd (F base_x) f1 = F base_x) by (field; exact N).
+  assert (Ey : fd (F base_y) f1 = F base_y) by (field; exact N).
+  rewrite Ex, Ey. unfold Edwards.onc, dF, fs, fm, fa, f1, F.
+  change (z1 fp) with (of_Z fp 1). rewrite <- !of_Z_mul, <- of_Z_sub, <- of_Z_add.
+  apply of_Z_eq. vm_compute. reflexivity.
+Qed.
+
+(* [l]B is the neutral element: kernel evaluation of the model's own double-and-add on the reference kernel *)
+Lemma ell_base_coords :
+  exists R, pt_mul K_ref ell (pt_base K_ref) = R /\ px R = 0 /\ py R = pz R.
+Proof. eexists. split; [vm_compute; reflexivity|]. split; reflexivity. Qed.
+
+Definition Ln : nat := Z.to_nat ell.
+
+Lemma base_order K : nmul Ln (aff (pt_base K)) = eid.
+Proof.
+  assert (EB : pt_base K = pt_base K_ref) by (unfold pt_base; now rewrite fmul_K).
+  rewrite EB. destruct (pt_mul_correct K_ref ell _ (valid_base K_ref)) as [V A].
+  unfold Ln. rewrite <- A.
+  destruct ell_base_coords as (R & ER & Hx & Hy). rewrite ER in V |- *. clear ER A.
+  destruct V as (Hz & _ & _).
+  unfold aff. rewrite Hx, Hy, F_0. unfold Edwards.eid.
+  apply f_equal2; field; exact Hz.
+Qed.
+
+(* multiples only depend on the multiplier modulo the order *)
+Lemma nmul_mod A (a : nat) : onc A -> nmul Ln A = eid -> nmul (a mod Ln) A = nmul a A.
+Proof.
+  intros C H. assert (Ln <> 0)%nat by (unfold Ln; intro E; apply (f_equal Z.of_nat) in E; rewrite Z2Nat.id in E; discriminate).
+  rewrite (Nat.div_mod a Ln) at 2 by assumption.
+  rewrite (E_nmul_add _ _ _ C). rewrite Nat.mul_comm. rewrite (E_nmul_mul _ _ _ C). rewrite H, E_nmul_eid.
+  now rewrite E_id_l.
+Qed.
+
+Lemma nmul_congr A (a b : Z) : onc A -> nmul Ln A = eid -> 0 <= a -> 0 <= b -> a mod ell = b mod ell ->
+  nmul (Z.to_nat a) A = nmul (Z.to_nat b) A.
+Proof.
+  intros C H Ha Hb E.
+  rewrite <- (nmul_mod A (Z.to_nat a) C H), <- (nmul_mod A (Z.to_nat b) C H).
+  f_equal. unfold Ln. apply Nat2Z.inj. rewrite !Nat2Z.inj_mod, !Z2Nat.id by (try assumption; discriminate). exact E.
+Qed.
+
+(* ---------------------------------------------------------------- the ristretto backend record *)
+Section RBTheorems.
+  Variable K : Kernel.
+  Variable PM : PMul.
+  Notation B := (RB K PM).
+
+  Lemma rb_pow a x : b_pow B a x = pt_mul K x a.
+  Proof. cbn. rewrite pm_ok. symmetry. apply pt_mul_K. Qed.
+
+  Lemma rb_pow_correct a x : valid a -> valid (b_pow B a x) /\ aff (b_pow B a x) = nmul (Z.to_nat x) (aff a).
+  Proof. intro V. rewrite rb_pow. now apply pt_mul_correct. Qed.
+
+  Lemma rb_gen_valid : valid (b_gen B).  Proof. exact (valid_base K). Qed.
+
+  (* ElGamal: decryption inverts encryption for EVERY secret key, message point and randomness *)
+  Theorem rb_elgamal_roundtrip sk r m : valid m ->
+    exists d, decrypt B sk (encrypt_with_randomness B (pk_of_sk B sk) m r) = Ok d /\
+              valid d /\ aff d = aff m /\ b_eqb B d m = true.
+  Proof.
+    intro Vm.
+    unfold decrypt, encrypt_with_randomness, pk_of_sk, b_gpow, b_divp. cbn [mhr gr].
+    cbn [b_invp b_modp b_mul RB bind].
+    destruct (rb_pow_correct (b_gen B) sk rb_gen_valid) as [Vpk Apk].
+    destruct (rb_pow_correct _ r Vpk) as [Vh Ah].
+    destruct (rb_pow_correct (b_gen B) r rb_gen_valid) as [Vgr Agr].
+    destruct (rb_pow_correct _ sk Vgr) as [Vf Af].
+    destruct (pt_add_correct K _ _ Vm Vh) as [Vc Ac].
+    destruct (pt_neg_correct K _ Vf) as [Vn An].
+    destruct (pt_add_correct K _ _ Vc Vn) as [Vd Ad].
+    eexists. split; [reflexivity|].
+    assert (A : aff (pt_add K (pt_add K m (b_pow B (b_pow B (b_gen B) sk) r)) (pt_neg K (b_pow B (b_pow B (b_gen B) r) sk))) = aff m).
+    { rewrite Ad, Ac, An, Ah, Af, Apk, Agr.
+      set (G := aff (b_gen B)). assert (CG : onc G) by apply rb_gen_valid.
+      rewrite <- !(E_nmul_mul _ _ _ CG). rewrite (Nat.mul_comm (Z.to_nat sk)).
+      apply E_cancel_r; [apply Vm | now apply E_nmul_onc]. }
+    split; [exact Vd|]. split; [exact A|].
+    apply pt_eqb_of_aff; assumption.
+  Qed.
+
+  (* homomorphic product *)
+  Theorem rb_ct_mul_aff (c1 c2 : ctext B) : valid (mhr c1) -> valid (mhr c2) -> valid (gr c1) -> valid (gr c2) ->
+    aff (mhr (ct_mul B c1 c2)) = eadd (aff (mhr c1)) (aff (mhr c2)) /\
+    aff (gr (ct_mul B c1 c2)) = eadd (aff (gr c1)) (aff (gr c2)).
+  Proof.
+    intros V1 V2 V3 V4. unfold ct_mul, b_mulp. cbn [mhr gr b_modp b_mul RB]. split.
+    - apply (pt_add_correct K _ _ V1 V2).
+    - apply (pt_add_correct K _ _ V3 V4).
+  Qed.
+
+  Lemma rb_hash_nonneg bs : 0 <= b_hash_to_exp B bs < ell.
+  Proof.
+    cbn. unfold r_hash_to_exp, sc_from_bytes_mod_order, smod. rewrite k_mod_ok. apply Z.mod_pos_bound. reflexivity.
+  Qed.
+
+  (* the response s = (r + c x mod l) mod l acts on a point of order dividing l like r + c x *)
+  Lemma rb_response A c x r : onc A -> nmul Ln A = eid -> 0 <= c -> 0 <= x -> 0 <= r ->
+    nmul (Z.to_nat (b_xmodq B (b_xadd B r (b_xmul B c x)))) A =
+    eadd (nmul (Z.to_nat r) A) (nmul (Z.to_nat c) (nmul (Z.to_nat x) A)).
+  Proof.
+    intros C H Hc Hx Hr. cbn [b_xmodq b_xadd b_xmul RB]. unfold sc_add, sc_mul, smod. rewrite !k_mod_ok, k_mul_ok.
+    rewrite <- (E_nmul_mul _ _ _ C), <- (E_nmul_add _ _ _ C).
+    rewrite <- Z2Nat.inj_mul, <- Z2Nat.inj_add by nia.
+    apply nmul_congr; try assumption.
+    - apply Z.mod_pos_bound. reflexivity.
+    - nia.
+    - rewrite Z.mod_mod by discriminate. rewrite Zplus_mod_idemp_r. reflexivity.
+  Qed.
+
+  (* Schnorr completeness, explicit base of order dividing l (every secret, nonce, label) *)
+  Theorem rb_schnorr_complete g x r label : valid g -> nmul Ln (aff g) = eid -> 0 <= x -> 0 <= r ->
+    schnorr_verify B (b_pow B g x) (Some g) (schnorr_prove B x (b_pow B g x) (Some g) label r) label = true.
+  Proof.
+    intros Vg Hg Hx Hr.
+    unfold schnorr_verify, schnorr_prove, schnorr_verify_private, schnorr_prove_private, base_or_gen.
+    cbn [s_com s_chal s_resp]. rewrite Z.eqb_refl. cbn [andb].
+    set (c := schnorr_challenge B g (b_pow B g x) (b_pow B g r) (ctx_label label)).
+    assert (Hc : 0 <= c) by (unfold c, schnorr_challenge; apply rb_hash_nonneg).
+    destruct (rb_pow_correct g x Vg) as [Vy Ay]. destruct (rb_pow_correct g r Vg) as [Vt At].
+    destruct (rb_pow_correct _ c Vy) as [Vyc Ayc].
+    destruct (rb_pow_correct g (b_xmodq B (b_xadd B r (b_xmul B c x))) Vg) as [Vl Al].
+    cbn [b_modp b_mul RB]. destruct (pt_add_correct K _ _ Vt Vyc) as [Vr Ar].
+    change (b_eqb B) with (pt_eqb K). apply pt_eqb_of_aff; [exact Vl|exact Vr|].
+    rewrite Al, Ar, At, Ayc, Ay. apply rb_response; try assumption. apply Vg.
+  Qed.
+
+  (* ... and with the default generator *)
+  Theorem rb_schnorr_complete_default x r label : 0 <= x -> 0 <= r ->
+    schnorr_verify B (b_gpow B x) None (schnorr_prove B x (b_gpow B x) None label r) label = true.
+  Proof.
+    intros Hx Hr. pose proof (rb_schnorr_complete (b_gen B) x r label rb_gen_valid (base_order K) Hx Hr) as H.
+    exact H.
+  Qed.
+
+  (* Chaum-Pedersen completeness for two bases of order dividing l *)
+  Theorem rb_cp_complete g1 g2 x r label : valid g1 -> valid g2 ->
+    nmul Ln (aff g1) = eid -> nmul Ln (aff g2) = eid -> 0 <= x -> 0 <= r ->
+    cp_verify B (b_pow B g1 x) (b_pow B g2 x) (Some g1) g2
+              (cp_prove B x (b_pow B g1 x) (b_pow B g2 x) (Some g1) g2 label r) label = true.
+  Proof.
+    intros V1 V2 H1 H2 Hx Hr.
+    unfold cp_verify, cp_prove, cp_verify_private, cp_prove_private, base_or_gen.
+    cbn [c_com1 c_com2 c_chal c_resp]. rewrite Z.eqb_refl. cbn [andb].
+    set (c := cp_challenge B g1 g2 (b_pow B g1 x) (b_pow B g2 x) (b_pow B g1 r) (b_pow B g2 r) (ctx_label label)).
+    assert (Hc : 0 <= c) by (unfold c, cp_challenge; apply rb_hash_nonneg).
+    cbn [b_modp b_mul RB]. change (b_eqb B) with (pt_eqb K).
+    apply andb_true_iff. split.
+    - destruct (rb_pow_correct g1 x V1) as [Vy Ay]. destruct (rb_pow_correct g1 r V1) as [Vt At].
+      destruct (rb_pow_correct _ c Vy) as [Vyc Ayc].
+      destruct (rb_pow_correct g1 (b_xmodq B (b_xadd B r (b_xmul B c x))) V1) as [Vl Al].
+      destruct (pt_add_correct K _ _ Vt Vyc) as [Vr Ar].
+      apply pt_eqb_of_aff; [exact Vl|exact Vr|].
+      rewrite Al, Ar, At, Ayc, Ay. apply rb_response; try assumption. apply V1.
+    - destruct (rb_pow_correct g2 x V2) as [Vy Ay]. destruct (rb_pow_correct g2 r V2) as [Vt At].
+      destruct (rb_pow_correct _ c Vy) as [Vyc Ayc].
+      destruct (rb_pow_correct g2 (b_xmodq B (b_xadd B r (b_xmul B c x))) V2) as [Vl Al].
+      destruct (pt_add_correct K _ _ Vt Vyc) as [Vr Ar].
+      apply pt_eqb_of_aff; [exact Vl|exact Vr|].
+      rewrite Al, Ar, At, Ayc, Ay. apply rb_response; try assumption. apply V2.
+  Qed.
+End RBTheorems.
